@@ -809,6 +809,7 @@ func cmdRun(args []string) {
 	prop := args[0]
 	fs.Parse(args[1:])
 	rest := fs.Args()
+	scen.DumpRaw = os.Getenv("MC_RAW") != ""
 	idx, _ := strconv.Atoi(rest[0])
 	var choices []int
 	for _, a := range rest[1:] {
